@@ -25,7 +25,12 @@ import sys
 import time
 
 ROOT = os.path.dirname(os.path.dirname(os.path.abspath(__file__)))
-HARNESS = os.path.join(ROOT, "harness")
+# Overrides used only when validating a candidate repair in a scratch worktree (never by registered commands):
+#   VERIF_HARNESS = a copy of harness/ whose path dependencies point at the scratch worktree
+#   VERIF_OUT     = directory receiving work/, evidence/ and replays/ instead of /verif
+#   VERIF_KNOWN   = alternative known_findings.json
+HARNESS = os.environ.get("VERIF_HARNESS") or os.path.join(ROOT, "harness")
+OUT = os.environ.get("VERIF_OUT") or ROOT
 SPECS = os.path.join(ROOT, "specs")
 TLA_JAR = "/opt/veriftools/tla/tla2tools.jar"
 COMMUNITY = None
@@ -78,11 +83,11 @@ class Ctx:
         self.seed = seed
         self.replay = replay
         self.t0 = time.time()
-        self.work = os.path.join(ROOT, "work", pid)
+        self.work = os.path.join(OUT, "work", pid)
         shutil.rmtree(self.work, ignore_errors=True)
         os.makedirs(self.work, exist_ok=True)
-        os.makedirs(os.path.join(ROOT, "evidence"), exist_ok=True)
-        os.makedirs(os.path.join(ROOT, "replays"), exist_ok=True)
+        os.makedirs(os.path.join(OUT, "evidence"), exist_ok=True)
+        os.makedirs(os.path.join(OUT, "replays"), exist_ok=True)
         self.cov = {
             "states": 0,
             "transitions": 0,
@@ -293,7 +298,7 @@ class Ctx:
 
     # --------------------------------------------------------------- verdict
     def known_findings(self):
-        p = os.path.join(ROOT, "known_findings.json")
+        p = os.environ.get("VERIF_KNOWN") or os.path.join(ROOT, "known_findings.json")
         if not os.path.exists(p):
             return []
         with open(p) as f:
@@ -325,7 +330,7 @@ class Ctx:
                 continue
             case = case_lookup(b["rec"]) if case_lookup else None
             h = hashlib.sha1((key + json.dumps(b["rec"], sort_keys=True)).encode()).hexdigest()[:10]
-            rp = os.path.join(ROOT, "replays", "%s-%s.json" % (self.pid, h))
+            rp = os.path.join(OUT, "replays", "%s-%s.json" % (self.pid, h))
             doc = {"property": self.pid, "engine": engine, "seed": self.seed, "tier": self.tier,
                    "spec": spec, "cfg": cfg, "signature": sig, "record": b["rec"], "case": case}
             with open(rp, "w") as f:
@@ -366,7 +371,7 @@ class Ctx:
             "violations": len(self.violations),
         }
         if not self.replay:
-            with open(os.path.join(ROOT, "evidence", "%s.json" % self.pid), "w") as f:
+            with open(os.path.join(OUT, "evidence", "%s.json" % self.pid), "w") as f:
                 json.dump(ev, f, indent=1)
         for k, c in self.known:
             print("KNOWN-FINDING: property=%s %s (%d case(s) this run)" % (self.pid, k["what"], c), flush=True)
